@@ -77,6 +77,7 @@ Monitor *mk_world_tracker(World *w);          // handshake/tunnel phase, client 
 Monitor *mk_c01_integrity(World *w);
 Monitor *mk_c02_delivery(World *w, bool clean_a, bool recovery_b, const std::string &prop = "C02");
 Monitor *mk_c16_redeliver(World *w);
+Monitor *mk_second_session(World *w);          // C11 two-session runs: delivery for the client started after a restart
 Monitor *mk_stale_dup(World *w);               // fault injector: old data answers (4-7 sequence numbers back) re-delivered between fragments
 Monitor *mk_c15_fragsize(World *w);
 Monitor *mk_c08_names(World *w);
